@@ -41,19 +41,21 @@ Print Assumptions C20_chunking.
    tickit_term_input_check_timeout_msec after every gap.  As long as every single gap stays below
    the wait time -- however long the fragments take together -- no poll forces a time-out
    (timed_run is not None) and the events and the final input state are those of the whole
-   stream pushed at once.  The deadline is re-armed on every AGAIN. *)
+   stream pushed at once.  The deadline is re-armed on every AGAIN, and counted from the moment
+   the drain loop meets AGAIN: [ht], the time each of the application's key / mouse handlers takes,
+   is arbitrary -- time spent inside handlers is never charged to a trailing partial sequence. *)
 Theorem C20_timed_chunking : forall (tok : list Z -> tokres),
   (forall b m k n, tok b = TKey k n -> tok (b ++ m) = TKey k n) ->
   (forall b k n, tok b = TKey k n -> (0 < n <= length b)%nat) ->
   forall cap : nat, (0 < cap)%nat ->
   (forall b, tok b = TAgain -> (length b < cap)%nat) ->
   (forall b, tok b = TNone -> b = []) ->
-  forall wait steps c g now ts,
+  forall wait ht steps c g now ts,
   (forall c0 gap, In (c0, gap) ((c, g) :: steps) -> 0 <= gap < wait) ->
   (length (i_buf (t_in ts)) < cap)%nat ->
   match push_bytes tok cap (t_in ts) (concat (map fst ((c, g) :: steps))) with
-  | Some (evs, s') => exists ms d, timed_run tok cap wait false now ts ((c, g) :: steps) = Some (evs, ms, mkT s' d)
-  | None => timed_run tok cap wait false now ts ((c, g) :: steps) = None
+  | Some (evs, s') => exists ms d, timed_run tok cap wait false false ht now ts ((c, g) :: steps) = Some (evs, ms, mkT s' d)
+  | None => timed_run tok cap wait false false ht now ts ((c, g) :: steps) = None
   end.
 Proof. exact timed_chunking. Qed.
 Print Assumptions C20_timed_chunking.
@@ -61,11 +63,21 @@ Print Assumptions C20_timed_chunking.
 (* the variant that keeps a deadline that is already running (wait counted from the FIRST
    fragment) forces a time-out with three fragments 30 ms apart *)
 Theorem C20_timed_refuted_stale_deadline :
-  timed_run esc_tok 256 50000 true 0 tst0 [([27], 30000); ([91], 30000); ([65], 0)] = None /\
-  timed_run esc_tok 256 50000 false 0 tst0 [([27], 30000); ([91], 30000); ([65], 0)] =
+  timed_run esc_tok 256 50000 true false 0 0 tst0 [([27], 30000); ([91], 30000); ([65], 0)] = None /\
+  timed_run esc_tok 256 50000 false false 0 0 tst0 [([27], 30000); ([91], 30000); ([65], 0)] =
     Some ([EvKey KEYEV_KEY 0 [85; 112]], [20; 20; -1], mkT (mkI [] 0 false) None).
 Proof. exact stale_deadline_refuted. Qed.
 Print Assumptions C20_timed_refuted_stale_deadline.
+
+(* the seeded variant that reads the clock at the top of get_keys, before the handlers of the
+   complete keys of the chunk have run: 'a' (handler 70 ms, wait 50 ms) followed by ESC in one
+   chunk, the time-out polled at once, the rest of the sequence delivered immediately -- forced *)
+Theorem C20_timed_refuted_early_timestamp :
+  timed_run esc_tok 256 50000 false true 70000 0 tst0 [([97; 27], 0); ([91; 65], 0)] = None /\
+  timed_run esc_tok 256 50000 false false 70000 0 tst0 [([97; 27], 0); ([91; 65], 0)] =
+    Some ([EvKey KEYEV_TEXT 0 [97]; EvKey KEYEV_KEY 0 [85; 112]], [50; -1], mkT (mkI [] 0 false) None).
+Proof. exact early_timestamp_refuted. Qed.
+Print Assumptions C20_timed_refuted_early_timestamp.
 
 (* ... and those events are the translations, one after the other, of the keys the tokenizer
    finds in the buffer *)
@@ -145,12 +157,12 @@ Theorem C20_chunking_reference : forall chunks c s, (length (i_buf s) < REF_CAP)
 Proof. exact ref_chunking. Qed.
 Print Assumptions C20_chunking_reference.
 
-Theorem C20_timed_chunking_reference : forall wait steps c g now ts,
+Theorem C20_timed_chunking_reference : forall wait ht steps c g now ts,
   (forall c0 gap, In (c0, gap) ((c, g) :: steps) -> 0 <= gap < wait) ->
   (length (i_buf (t_in ts)) < REF_CAP)%nat ->
   match push_bytes ref_tok REF_CAP (t_in ts) (concat (map fst ((c, g) :: steps))) with
-  | Some (evs, s') => exists ms d, timed_run ref_tok REF_CAP wait false now ts ((c, g) :: steps) = Some (evs, ms, mkT s' d)
-  | None => timed_run ref_tok REF_CAP wait false now ts ((c, g) :: steps) = None
+  | Some (evs, s') => exists ms d, timed_run ref_tok REF_CAP wait false false ht now ts ((c, g) :: steps) = Some (evs, ms, mkT s' d)
+  | None => timed_run ref_tok REF_CAP wait false false ht now ts ((c, g) :: steps) = None
   end.
 Proof. exact ref_timed_chunking. Qed.
 Print Assumptions C20_timed_chunking_reference.
